@@ -7,9 +7,11 @@ package c12
 
 import (
 	"encoding/json"
+	"errors"
 	"fmt"
 	"os"
 	"path/filepath"
+	"reflect"
 	"runtime/debug"
 	"sort"
 	"strings"
@@ -39,6 +41,8 @@ type outcome struct {
 	Stack     string
 	InterpErr string // the program is not expressible as Go source (arity / static types)
 	TimedOut  bool
+	// Unlocated: a reported error that does not name its expression (see locate)
+	Unlocated string
 }
 
 // reset puts goa's global evaluation state back to what a fresh design
@@ -77,6 +81,7 @@ func evaluate(p *dt.Program) outcome {
 			return
 		}
 		if err := eval.RunDSL(); err != nil {
+			o.Unlocated = locate(err)
 			o.Errors = split(err)
 			return
 		}
@@ -88,6 +93,36 @@ func evaluate(p *dt.Program) outcome {
 	case <-time.After(20 * time.Second):
 		return outcome{TimedOut: true}
 	}
+}
+
+// locate checks the structured part of "errors that name the offending
+// expression": validation-phase errors are an *eval.ValidationErrors whose
+// Errors and Expressions run in parallel, and every entry must carry a non-nil
+// error and an expression with a non-empty EvalName (that name is what
+// ValidationErrors.Error prints in front of the message). Execution-phase
+// errors are free text located by file and line of the user's design; there the
+// only firm requirement is a non-empty message (checked by judge).
+func locate(err error) string {
+	var verr *eval.ValidationErrors
+	if !errors.As(err, &verr) {
+		return ""
+	}
+	if len(verr.Errors) != len(verr.Expressions) {
+		return fmt.Sprintf("ValidationErrors has %d errors for %d expressions", len(verr.Errors), len(verr.Expressions))
+	}
+	for i, e := range verr.Errors {
+		if e == nil {
+			return fmt.Sprintf("validation error %d is nil", i)
+		}
+		x := verr.Expressions[i]
+		if x == nil || reflect.ValueOf(x).Kind() == reflect.Ptr && reflect.ValueOf(x).IsNil() {
+			return fmt.Sprintf("validation error %q names no expression", e.Error())
+		}
+		if strings.TrimSpace(x.EvalName()) == "" {
+			return fmt.Sprintf("validation error %q names an expression (%T) with an empty name", e.Error(), x)
+		}
+	}
+	return ""
 }
 
 func split(err error) []string {
@@ -242,6 +277,8 @@ func judge(p *dt.Program, o outcome) string {
 		return ""
 	case !o.Accepted && len(o.Errors) == 0:
 		return "evaluation failed with an empty error list"
+	case o.Unlocated != "":
+		return "a reported error does not name the offending expression: " + o.Unlocated
 	}
 	for _, e := range o.Errors {
 		if strings.TrimSpace(e) == "" {
@@ -313,9 +350,14 @@ func TestChaos(t *testing.T) {
 }
 
 func validProgram(rt_ *rapid.T) (*m.Design, *dt.Program) {
-	prof := rapid.SampledFrom([]gen.Profile{gen.Routes(), gen.Routes(), gen.Views(), gen.Security(), gen.Response()}).Draw(rt_, "profile")
+	prof := rapid.SampledFrom([]gen.Profile{gen.Routes(), gen.Routes(), gen.Views(), gen.Security(), gen.Response(), gen.GRPCProfile()}).Draw(rt_, "profile")
 	prof.Avoid = gen.OpenQuirks()
-	d := gen.Design(prof).Draw(rt_, "design")
+	var d *m.Design
+	if prof.Name == "grpc" {
+		d = gen.GRPCDesign(prof).Draw(rt_, "design")
+	} else {
+		d = gen.Design(prof).Draw(rt_, "design")
+	}
 	return d, d.Lower()
 }
 
@@ -366,6 +408,21 @@ func dangle(rt_ *rapid.T, d *m.Design) string {
 		s := s
 		for _, meth := range s.Methods {
 			meth := meth
+			if g := meth.GRPC; g != nil {
+				if meth.Payload != nil && d.ObjectFields(meth.Payload) != nil {
+					sites = append(sites, site{"gRPC metadata mapped to a missing payload attribute in " + meth.Name, func() {
+						g.Metadata = append(append([]m.Mapping{}, g.Metadata...), m.Mapping{Attr: "no_such_attribute"})
+					}})
+				}
+				if meth.Result != nil && d.ObjectFields(meth.Result) != nil {
+					sites = append(sites, site{"gRPC response header mapped to a missing result attribute in " + meth.Name, func() {
+						g.Headers = append(append([]m.Mapping{}, g.Headers...), m.Mapping{Attr: "no_such_attribute"})
+					}})
+					sites = append(sites, site{"gRPC response trailer mapped to a missing result attribute in " + meth.Name, func() {
+						g.Trailers = append(append([]m.Mapping{}, g.Trailers...), m.Mapping{Attr: "no_such_attribute"})
+					}})
+				}
+			}
 			h := meth.HTTP
 			if h == nil {
 				continue
@@ -374,6 +431,20 @@ func dangle(rt_ *rapid.T, d *m.Design) string {
 			if objPayload {
 				sites = append(sites, site{"query parameter mapped to a missing payload attribute in " + meth.Name, func() { h.Query = append(h.Query, m.Mapping{Attr: "no_such_attribute"}) }})
 				sites = append(sites, site{"header mapped to a missing payload attribute in " + meth.Name, func() { h.Headers = append(h.Headers, m.Mapping{Attr: "no_such_attribute", Wire: "X-Nope"}) }})
+				sites = append(sites, site{"cookie mapped to a missing payload attribute in " + meth.Name, func() { h.Cookies = append(h.Cookies, m.Mapping{Attr: "no_such_attribute", Wire: "nope"}) }})
+				// the same with no other mapping of that family on the endpoint
+				// (validation code paths that return early on an empty set)
+				if !secured(d, s, meth) {
+					sites = append(sites, site{"only-query parameter mapped to a missing payload attribute in " + meth.Name, func() {
+						h.Query, h.Headers, h.Cookies = []m.Mapping{{Attr: "no_such_attribute"}}, nil, nil
+					}})
+					sites = append(sites, site{"only-header mapped to a missing payload attribute in " + meth.Name, func() {
+						h.Query, h.Headers, h.Cookies = nil, []m.Mapping{{Attr: "no_such_attribute", Wire: "X-Nope"}}, nil
+					}})
+					sites = append(sites, site{"only-cookie mapped to a missing payload attribute in " + meth.Name, func() {
+						h.Query, h.Headers, h.Cookies = nil, nil, []m.Mapping{{Attr: "no_such_attribute", Wire: "nope"}}
+					}})
+				}
 				if h.Body == nil && (h.Routes[0].Verb == "POST" || h.Routes[0].Verb == "PUT" || h.Routes[0].Verb == "PATCH") {
 					sites = append(sites, site{"Body naming a missing payload attribute in " + meth.Name, func() { h.Body = &m.Body{Mode: "attr", Attr: "no_such_attribute"} }})
 				}
@@ -391,6 +462,23 @@ func dangle(rt_ *rapid.T, d *m.Design) string {
 					r := *h.Responses[0]
 					r.Headers = append(append([]m.Mapping{}, r.Headers...), m.Mapping{Attr: "no_such_attribute", Wire: "X-Nope"})
 					h.Responses[0] = &r
+				}})
+				sites = append(sites, site{"response cookie mapped to a missing result attribute in " + meth.Name, func() {
+					if len(h.Responses) == 0 {
+						h.Responses = []*m.Response{{Status: 200}}
+					}
+					r := *h.Responses[0]
+					r.Cookies = append(append([]m.Mapping{}, r.Cookies...), m.Mapping{Attr: "no_such_attribute", Wire: "nope"})
+					h.Responses[0] = &r
+				}})
+				sites = append(sites, site{"only-response cookie mapped to a missing result attribute in " + meth.Name, func() {
+					h.Responses = []*m.Response{{Status: 200, Cookies: []m.Mapping{{Attr: "no_such_attribute", Wire: "nope"}}}}
+				}})
+				sites = append(sites, site{"only-response header mapped to a missing result attribute in " + meth.Name, func() {
+					h.Responses = []*m.Response{{Status: 200, Headers: []m.Mapping{{Attr: "no_such_attribute", Wire: "X-Nope"}}}}
+				}})
+				sites = append(sites, site{"response Body naming a missing result attribute in " + meth.Name, func() {
+					h.Responses = []*m.Response{{Status: 200, Body: &m.Body{Mode: "attr", Attr: "no_such_attribute"}}}
 				}})
 				sites = append(sites, site{"response Tag naming a missing result attribute in " + meth.Name, func() {
 					tagged := &m.Response{Status: 299, TagName: "no_such_attribute", TagValue: "x"}
@@ -522,6 +610,12 @@ func TestDangling(t *testing.T) {
 			rt_.Fatalf("%s\n%s", msg, p.Print("design"))
 		}
 	})
+}
+
+// secured reports whether the method carries credentials (their attributes
+// must stay mapped, so the "only-" variants leave such methods alone).
+func secured(d *m.Design, s *m.Service, meth *m.Method) bool {
+	return len(meth.Creds) > 0 || len(meth.Security) > 0 || len(s.Security) > 0 || len(d.API.Security) > 0
 }
 
 // knownAccepted maps a dangling-reference class to an open finding.
